@@ -41,6 +41,27 @@ func startHookRec(prefix string) *hookRec {
 	return h
 }
 
+// listenerComplete: the log of a closed listener is complete when the loop has reported its exit, the waiter has closed the
+// channel, and every accepted connection has reported how its handler ended (the reports follow the operations, so they can
+// still be on their way when the history itself is over)
+func (h *hookRec) listenerComplete() bool {
+	h.mu.Lock()
+	defer h.mu.Unlock()
+	seen := map[string]bool{}
+	for _, e := range h.ev {
+		seen[e] = true
+	}
+	if !seen["L"] || !seen["K"] || !seen["X"] {
+		return false
+	}
+	for _, e := range h.ev {
+		if e[0] == 'a' && !seen["f"+e[1:]] && !seen["p"+e[1:]] {
+			return false
+		}
+	}
+	return true
+}
+
 func (h *hookRec) stop() []string {
 	hookCur.Store(nil)
 	h.mu.Lock()
